@@ -420,6 +420,8 @@ impl PersistBackend for FilePersist {
             }
         }
 
+        #[cfg(inputlayer_verif)]
+        crate::verif_hooks::sched_point("persist:append:after_wal");
         // Add to buffer
         let should_flush = {
             let mut shards = self.shards.write();
@@ -487,6 +489,8 @@ impl PersistBackend for FilePersist {
     fn compact(&self, shard: &str, new_since: u64) -> StorageResult<()> {
         // Flush first to ensure all data is in batches
         self.flush(shard)?;
+        #[cfg(inputlayer_verif)]
+        crate::verif_hooks::sched_point("persist:compact:after_flush");
 
         let mut shards = self.shards.write();
         let state = shards
@@ -529,6 +533,8 @@ impl PersistBackend for FilePersist {
         // After this succeeds, metadata points to the new batch only.
         state.meta.advance_since(new_since);
         self.save_shard_meta(&state.meta)?;
+        #[cfg(inputlayer_verif)]
+        crate::verif_hooks::sched_point("persist:compact:after_meta");
 
         // Step 3: Delete old batch files LAST (safe - metadata no longer references them)
         // If we crash here, we have orphaned files but no data loss.
@@ -579,6 +585,8 @@ impl PersistBackend for FilePersist {
     }
 
     fn flush(&self, shard: &str) -> StorageResult<()> {
+        #[cfg(inputlayer_verif)]
+        crate::verif_hooks::sched_point("persist:flush:entry");
         let mut shards = self.shards.write();
         let state = shards
             .get_mut(shard)
@@ -600,6 +608,8 @@ impl PersistBackend for FilePersist {
             len: batch.len(),
         };
 
+        #[cfg(inputlayer_verif)]
+        crate::verif_hooks::sched_point("persist:flush:after_batch");
         // Step 2: Update metadata and save atomically
         state.meta.add_batch(batch_ref);
         state.buffer.clear();
@@ -610,11 +620,15 @@ impl PersistBackend for FilePersist {
             return Err(e);
         }
 
+        #[cfg(inputlayer_verif)]
+        crate::verif_hooks::sched_point("persist:flush:after_meta");
         // Step 3: Remove WAL entries LAST (safe - metadata already points to batch)
         {
             let mut wal = self.wal.lock();
             wal.remove_shard_entries(shard)?;
         }
+        #[cfg(inputlayer_verif)]
+        crate::verif_hooks::sched_point("persist:flush:after_wal_rewrite");
 
         Ok(())
     }
@@ -625,6 +639,8 @@ impl PersistBackend for FilePersist {
             let mut shards = self.shards.write();
             shards.remove(shard)
         }; // write lock released - other shards unblocked
+        #[cfg(inputlayer_verif)]
+        crate::verif_hooks::sched_point("persist:delete_shard:after_map_remove");
 
         // Step 2: Delete batch files FIRST (crash-safe ordering)
         // If we crash here, metadata still references them but they're gone.
